@@ -72,6 +72,20 @@ def leaves_close(a, b, rtol, atol):
     return True, ""
 
 
+class Registry:
+    """names pytrees by integer ids; float leaves are matched within tolerance, int/bool leaves exactly"""
+
+    def __init__(self):
+        self.items = []
+
+    def id(self, x):
+        for i, y in enumerate(self.items):
+            if leaves_close(x, y, 1e-4, 1e-5)[0]:
+                return i
+        self.items.append(x)
+        return len(self.items) - 1
+
+
 def corner_action(space, rng, i):
     from lerax.space import Box, Discrete
     if isinstance(space, Discrete):
@@ -115,16 +129,27 @@ def exercise(name, ctor, rng, horizon, seed):
         s = env.initial(key=ik)
         return s, env.observation(s, key=ok)
 
-    k0 = jr.key(seed)
-    state, obs, info = env.reset(key=k0)
-    rs, ro = ref_reset(k0)
-    ok, why = leaves_close((state, obs), (rs, ro), 1e-5, 1e-6)
-    if not ok:
-        out["c01"].append({"what": "reset differs from initial/observation composition: " + why, "t": 0})
     comps_j = {"transition": eqx.filter_jit(lambda s, a, k: env.transition(s, a, key=k)),
                "observation": eqx.filter_jit(lambda s, k: env.observation(s, key=k)),
                "reward": eqx.filter_jit(lambda s, a, n, k: env.reward(s, a, n, key=k)),
                "terminal": eqx.filter_jit(lambda s, k: env.terminal(s, key=k))}
+    # ---- recorded environment for the Coq model (Lerax.Rec): component results as finite tables over state/observation ids
+    sreg, oreg = Registry(), Registry()
+    rec = {"init": [], "trans": [], "obs": [], "rew": [], "term": [], "trunc": [], "steps": [], "outs": []}
+    j_init = eqx.filter_jit(lambda k: env.initial(key=k))
+    j_trunc = eqx.filter_jit(lambda s: env.truncate(s))
+
+    k0 = jr.key(seed)
+    ik0, ok0 = jr.split(k0, 2)
+    s0 = j_init(ik0)
+    rec["init"].append([[[0, 0], [2, 0]], sreg.id(s0)])
+    rec["obs"].append([sreg.id(s0), [[0, 0], [2, 1]], oreg.id(eqx.filter_jit(lambda s, k: env.observation(s, key=k))(s0, ok0))])
+    state, obs, info = env.reset(key=k0)
+    rec["reset_key"] = [[0, 0]]; rec["reset_state"] = sreg.id(state); rec["reset_obs"] = oreg.id(obs)
+    rs, ro = ref_reset(k0)
+    ok, why = leaves_close((state, obs), (rs, ro), 1e-5, 1e-6)
+    if not ok:
+        out["c01"].append({"what": "reset differs from initial/observation composition: " + why, "t": 0})
     states_seen, actions_seen = [], []
     for t in range(1, horizon + 1):
         a = corner_action(act_space, rng, t) if t % 2 else act_space.sample(key=jr.key(seed * 1000 + t))
@@ -134,7 +159,22 @@ def exercise(name, ctor, rng, horizon, seed):
         if not bool(act_space.contains(smp)):
             out["c02"].append({"what": "sampled action not a member of the action space", "t": t, "action": np.asarray(smp).tolist()})
         prev = state
+        # components, separately, with the keys the Gym-style step prescribes
+        tk, rk, ek, xk = jr.split(k, 4)
+        root = [[0, t]]
+        sp = sreg.id(prev)
+        c_nxt = comps_j["transition"](prev, a, tk); sn = sreg.id(c_nxt)
+        c_ini = j_init(xk); si = sreg.id(c_ini)
+        rec["trans"].append([sp, t, root + [[4, 0]], sn])
+        rec["rew"].append([sp, t, sn, root + [[4, 1]], float(comps_j["reward"](prev, a, c_nxt, rk))])
+        rec["term"].append([sn, root + [[4, 2]], bool(comps_j["terminal"](c_nxt, ek))])
+        rec["trunc"].append([sn, bool(j_trunc(c_nxt))])
+        rec["init"].append([root + [[4, 3]], si])
+        rec["obs"].append([sn, root, oreg.id(comps_j["observation"](c_nxt, k))])
+        rec["obs"].append([si, root, oreg.id(comps_j["observation"](c_ini, k))])
         state, obs, rew, term, trunc, info = env.step(prev, a, key=k)
+        rec["steps"].append([t, root])
+        rec["outs"].append([sreg.id(state), oreg.id(obs), float(rew), bool(term), bool(trunc)])
         r_state, r_obs, r_rew, r_term, r_trunc, nxt = ref_step(prev, a, k)
         out["steps"] += 1; out["dones"] += int(bool(term) or bool(trunc))
         ok, why = leaves_close((state, obs, rew, term, trunc), (r_state, r_obs, r_rew, r_term, r_trunc), 1e-4, 1e-5)
@@ -183,6 +223,7 @@ def exercise(name, ctor, rng, horizon, seed):
                     ok, why = leaves_close(jit_, vm, 2e-4, 2e-5)
                     if not ok:
                         out["c12"].append({"what": f"{comp}: jit vs vmap differ: {why}", "i": i})
+    out["c01_rec"] = rec
     out["wall_s"] = round(time.time() - t0, 1)
     return out
 
